@@ -971,12 +971,23 @@ pub fn c08(tier: Tier) -> ! {
             let wg = WallpaperGroup { name, family: *fam, wyckoff_str: ops.clone() };
             for seed in 0..tier.pick(3u64, 10u64) {
                 let mut docs: Vec<(Value, Value)> = vec![];
+                let prev_hook = panic::take_hook();
+                panic::set_hook(Box::new(|_| {}));
                 if let Ok(h) = PackedState::from_group(LineShape::polygon(3).unwrap(), &wg) {
-                    docs.push((serde_json::to_value(&h).unwrap_or(Value::Null), stages(h, seed)));
+                    let before = serde_json::to_value(&h).unwrap_or(Value::Null);
+                    match panic::catch_unwind(AssertUnwindSafe(|| stages(h, seed))) {
+                        Ok(after) => docs.push((before, after)),
+                        Err(_) => run.fail(None, &format!("{} ({:?} cell): optimisation of a valid state panicked", name, fam), json!({"engine": "document", "group": name, "state": before})),
+                    }
                 }
                 if let Ok(l) = PotentialState::from_group(LJShape2::circle(), &wg) {
-                    docs.push((serde_json::to_value(&l).unwrap_or(Value::Null), stages(l, seed)));
+                    let before = serde_json::to_value(&l).unwrap_or(Value::Null);
+                    match panic::catch_unwind(AssertUnwindSafe(|| stages(l, seed))) {
+                        Ok(after) => docs.push((before, after)),
+                        Err(_) => run.fail(None, &format!("{} ({:?} cell): optimisation of a valid state panicked", name, fam), json!({"engine": "document", "group": name, "state": before})),
+                    }
                 }
+                panic::set_hook(prev_hook);
                 for (before, after) in docs {
                     odd_family_stages += 1;
                     let (b, a) = (&before["cell"], &after["cell"]);
